@@ -25,7 +25,28 @@ class LNode(LightNodeMixin):
         return "L%d" % self.label
 
 
-CLASSES = {"nm": PNode, "light": LNode}
+class EqNode(NodeMixin):
+    """value equality: all nodes of the class carry the same payload, so any two compare equal"""
+
+    def __init__(self, label, parent=None):
+        self.label = label
+        self.tag = 0
+        self.parent = parent
+
+    def __eq__(self, other):
+        return isinstance(other, EqNode) and self.tag == other.tag
+
+    def __ne__(self, other):
+        return not self.__eq__(other)
+
+    def __hash__(self):
+        return hash(self.tag)
+
+    def __repr__(self):
+        return "E%d" % self.label
+
+
+CLASSES = {"nm": PNode, "light": LNode, "eq": EqNode}
 
 
 def build(tree, cls=PNode, parent=None, index=None):
